@@ -413,43 +413,17 @@ example : let V := Version.mk' 1 [2, 3, 4, 5] none none none none
   intro V
   refine ⟨by decide, by decide, by decide +kernel, by decide +kernel, by decide +kernel, by decide +kernel⟩
 
-/-- not spelt with a wildcard: no member prints as `==X.*` and the union does not print as `!=X.*` -/
-def PlainSpelling : VC → Prop
-  | .empty => True
-  | .single m => m.plainText
-  | .union rs => (∀ m ∈ rs, m.plainText) ∧ VC.excludedWildcard rs = none
-
-/-- **the text round trip**, string level, for every non-empty constraint that is not spelt with a wildcard:
-single versions, plain ranges, `*`, `||` joins and `!=V`.  Extra hypotheses, named: the members are tidy (`Tidy`:
-no inclusive flag on an absent bound), the bounds carry re-parsable texts (`TextOK`), and — for a union — the
-bounds are mutually regular and not local builds (`RegB`), as everywhere in C05/C12 for unions. -/
+/-- **the text round trip**, string level, for every non-empty constraint that is not spelt with a wildcard
+(`PlainSpelling`: no member prints as `==X.*` and the union does not print as `!=X.*`): single versions, plain
+ranges, `*`, `||` joins and `!=V`.  Extra hypotheses, named: the members are tidy (`Tidy`: no inclusive flag on an
+absent bound), the bounds carry re-parsable texts (`TextOK`), and — for a union — the bounds are mutually regular
+and not local builds (`RegB`), as everywhere in C05/C12 for unions. -/
 theorem text_roundtrip_partial (c : VC) (hwf : c.WF) (hne : c.isEmpty = false)
     (htidy : ∀ m ∈ c.flatten, m.Tidy) (htext : ∀ e ∈ c.bounds, TextOK e)
     (hreg : ∀ rs, c = .union rs → RegB c.bounds) (hplain : PlainSpelling c) :
     ∃ s c', c.toStr = .ok s ∧ parseConstraint s = .ok c' ∧
-      ∀ p, p.wf = true → Regular (c.bounds ++ c'.bounds) p → c'.allows p = c.allows p := by
-  cases c with
-  | empty => simp [VC.isEmpty] at hne
-  | single m =>
-    obtain ⟨s, h1, h2⟩ := single_roundtrip m hwf.1 hwf.2 (htidy m (by simp [VC.flatten])) htext hplain
-    exact ⟨s, _, h1, h2, fun _ _ _ => rfl⟩
-  | union rs =>
-    have hU : UnionText rs := ⟨hwf, fun m hm => htidy m (by simpa [VC.flatten] using hm),
-      fun m hm e he => htext e (List.mem_flatMap.2 ⟨m, hm, he⟩), hreg rs rfl⟩
-    obtain ⟨hok, hN⟩ := unionOK_of_reg hU.reg rs hU.member hwf.2.2.1
-    obtain ⟨inv, hinv⟩ := inverted_total rs hok hN
-    have hxs : ∃ o, VC.excludedSingleVersion rs = .ok o := by
-      unfold VC.excludedSingleVersion
-      simp only [hinv, bind, Except.bind, pure, Except.pure]
-      split <;> exact ⟨_, rfl⟩
-    obtain ⟨o, ho⟩ := hxs
-    cases o with
-    | none =>
-      obtain ⟨s, c', h1, h2, _, _, h5⟩ := union_join_text_roundtrip rs hU hplain.1 ho hplain.2
-      exact ⟨s, c', h1, h2, fun p hp hr => h5 p hp (hr.mono (by intro e he; simp [he]))⟩
-    | some v =>
-      obtain ⟨s, c', h1, h2, _, h4⟩ := union_ne_text_roundtrip rs hU v ho
-      exact ⟨s, c', h1, h2, fun p hp hr => h4 p hp (hr.mono (by intro e he; simp [he]))⟩
+      ∀ p, p.wf = true → Regular (c.bounds ++ c'.bounds) p → c'.allows p = c.allows p :=
+  VC.text_roundtrip c hwf hne htidy htext hreg hplain
 
 /-- the unrestricted statement is false of model and code: a version text may end in a separator
 (`1.0post-` is `1.0.post0` for `VERSION_PATTERN`), and in front of the comma that `-` defeats the and-separator's
